@@ -170,6 +170,25 @@ def build_queries(prop, sysm, u, mon, tier='quick'):
         if not sysm.watch:
             qs.append(Query('unsuccessful_exit_is_a_failure', G['misclassified'], nohang + [nosig], confirm='rc_not_error',
                             desc='a script whose process exits unsuccessfully (non-zero code or killed by a signal) is never reported Completed/Skipped'))
+    elif prop == 'C06':
+        if sysm.watch:
+            # convergence: once changes stop (at most E notifications, the run ends quiescent), without faults or signal, every
+            # requested build/service target has been (re)started after the last change to its inputs and after the last
+            # completed run of every build it depends on (directly or through aggregates)
+            base = nf + nohang + [nosig, z3.Not(S['overflow'])] + oracle_constraints(u, replayable)
+            stale = z3.Or([z3.And(inc[t], G['stale.%d' % t]) for t in range(n) if sysm.kinds[t] != 'aggregate'] + [F])
+            qs.append(Query('converges_once_changes_stop', z3.And(final_quiet, stale), base, confirm='not_converged',
+                            desc='quiescent state of a watch run in which some requested target has not been (re)started since the last relevant change'))
+            qs.append(Query('no_panic_or_misrouted_message', sticky, base, confirm='panic'))
+            # the same with scripts that may exit unsuccessfully: a failed execution that started before the last change does not
+            # count; a target below a dependency whose most recent execution failed is excused
+            nf_but_exit = [c for c in nf if 'exit_success' not in str(c)]
+            base2 = nf_but_exit + nohang + [nosig, z3.Not(S['overflow'])] + oracle_constraints(u, replayable)
+            tr = mon.trans(sysm)
+            excused = [z3.Or([z3.And(tr[t][d], G['lastfail.%d' % d]) for d in range(t) if sysm.kinds[d] != 'aggregate'] + [F]) for t in range(n)]
+            stale2 = z3.Or([z3.And(inc[t], G['stale.%d' % t], z3.Not(excused[t])) for t in range(n) if sysm.kinds[t] != 'aggregate'] + [F])
+            qs.append(Query('converges_also_when_an_execution_fails', z3.And(final_quiet, G['truth_failed'], stale2), base2, confirm='not_converged',
+                            desc='as above, with scripts that may fail: an execution that started before the last relevant change and failed must be repeated'))
     elif prop == 'C20':
         pass
     return qs
@@ -325,6 +344,40 @@ def confirm_native(kind, case, tr):
         should_stay = any(has_service(r) for r in case['roots'])
         stays = tr.stuck and not tr.main_done
         return stays != should_stay
+    if kind == 'not_converged':
+        deps = {int(k): v for k, v in case['deps'].items()}
+        kinds = case['kinds']
+
+        def eff(t):
+            out = set()
+            for d in deps.get(t, []):
+                if kinds[d] == 'aggregate':
+                    out |= eff(d)
+                else:
+                    out.add(d)
+            return out
+        need = set()
+
+        def add(t):
+            if t in need:
+                return
+            need.add(t)
+            for d in deps.get(t, []):
+                add(d)
+        for r in case['roots']:
+            add(r)
+        stale = {t: True for t in range(len(kinds)) if kinds[t] != 'aggregate'}
+        for e in evs:
+            if e[0] == 'spawn' and e[1] in stale:
+                stale[e[1]] = False
+            elif e[0] == 'notify' and e[1] in stale:
+                stale[e[1]] = True
+            elif e[0] == 'reap' and e[2] == 0 and kinds[e[1]] == 'build':
+                for t in stale:
+                    if e[1] in eff(t):
+                        stale[t] = True
+        # the native run is quiescent (nothing can move, no script running) and a requested target is stale
+        return tr.stuck and not tr.stuck_running and not tr.main_done and any(stale[t] for t in need if t in stale)
     if kind == 'leak':
         return bool(tr.unreaped) or any(l.startswith('proc_dropped_unreaped') for l in tr.log)
     if kind == 'notstarted':
@@ -358,6 +411,7 @@ def run_case(arg):
     budget_s = arg[10] if len(arg) > 10 else None        # wall-clock budget for all solver queries of this case
     pin = arg[11] if len(arg) > 11 else None             # {'deps': {i: [j..]}, 'roots': [..]}: one fixed graph instead of all of them
     only = arg[12] if len(arg) > 12 else None            # names of the obligations to discharge in this case (None = all)
+    emax = arg[13] if len(arg) > 13 else 2               # bound E: at most that many file-change notifications per run (watch)
     t_start = time.time()
     out = {'kinds': kinds, 'watch': watch, 'K': K, 'queries': [], 'witness': None, 'error': None, 'functions': [], 'paths': 0}
     try:
@@ -387,7 +441,8 @@ def run_case(arg):
                 s.add(sysm.root[i] if i in pin['roots'] else z3.Not(sysm.root[i]))
             out['pinned'] = pin
         if watch:
-            s.add(z3.ULE(u.ghosts[-1]['nnotify'], 2))      # bound E: at most two file-change notifications per run
+            s.add(z3.ULE(u.ghosts[-1]['nnotify'], emax))      # bound E
+            out['max_notifications'] = emax
         for q in build_queries(prop, sysm, u, mon, tier):
             if only is not None and q.name not in only:
                 continue
@@ -497,13 +552,15 @@ LOCAL_PLAN = {
     'C11': [('service', False), ('service', True), ('aggregate', False), ('build', False)],
     'C10': [('service', False), ('service', True), ('build', False), ('build', True)],
     'C20': [('aggregate', False), ('aggregate', True)],
+    'C17': [('build', False), ('service', False), ('aggregate', False), ('build', True), ('service', True)],
 }
 LOCAL_MONITORS = {
     'C01': ['bad_decide', 'ok_without_cause', 'requested_non_dependency', 'reports_on_another_target'],
-    'C04': ['late_unanswered', 'misdirected_ok'],
+    'C04': ['late_unanswered', 'misdirected_ok', 'idle_although_ready'],
     'C06': ['late_unanswered', 'bad_decide', 'ok_without_cause', 'reports_on_another_target'],
     'C07': ['ok_on_fail', 'ok_without_cause'],
     'C08': ['twice'],
+    'C17': ['withheld_request', 'requested_non_dependency'],
     'C11': ['double_proc', 'wrong_actual', 'proc_left_at_exit'],
     'C10': ['proc_left_at_exit', 'double_proc'],
     'C20': ['ok_without_cause', 'late_unanswered', 'misdirected_ok', 'wrong_actual', 'reports_on_another_target'],
